@@ -33,6 +33,9 @@ CHECKS = {
  "C04": dict(cat="exploration", ref="DESIGN.md 3 (C04)", technique="seeded operation histories over aliased handles vs NumPy reference model (bounded exhaustive key walks + random chains)",
    text="every canonical (row key, column key) pair of the grammar on small loaded samples exhaustively (and, thorough, every pair of successive keys), plus seeded chains of up to 4 getitem/setitem ops over a pool of aliased handles; values, dtype and the seven per-channel attributes of every live handle compared with a NumPy reference model after every op; invalid keys must be refused, other forms refused or aligned.",
    note="trusted: models/index_ref.py and NumPy's own indexing; no fault dimension; two-part keys on 1-D samples and re-indexed row samples are checked for values only"),
+ "C13": dict(cat="exploration", ref="DESIGN.md 3 (C13)", technique="seeded operation histories with bit-exact state fingerprints, cross-mutation of results and inputs, and never-used-twin comparison (history independence)",
+   text="histories of 2..8 calls over the public surface of io, transform, gate, stats, mef, plot and FCSData (enumerated at run time) on a pool of loaded / converted / sliced samples and plain arrays; every argument (incl. caller-owned bins lists, population lists, parameter dicts and their element identities) and every pool object fingerprinted bit-exactly before and after each call, also when it raises; sample results cross-mutated with inputs; every answer compared with a freshly built twin; thorough also walks ordered pairs of calls on one object.",
+   note="trusted: models/fingerprint.py; buffer file position not fingerprinted; lists handed out by accessors may alias stored state (the property speaks about samples)"),
 }
 def main():
     checks = []
